@@ -1579,12 +1579,15 @@ def check(run):
     d = V.scratch("C12")
     gen = [gen_alternating(r, k) if k % 8 == 3 else gen_tcase(r, k) for k in range(200 if quick else 4000)]
     rc = [gen_rcase(r, k) for k in range(50 if quick else 1200)]
+    # every bias kind paired with a restraint whose energy varies (P cases)
+    pk = sorted(PAIR_KINDS)
+    pairs = [gen_pair_case(r, k, pk[k % len(pk)]) for k in range(len(pk) if quick else 6 * len(pk))]
     # footprints derived from the rebuilt binary -> coq/Gen/GenFootC12.v, BEFORE the proofs are checked
     derived, rich = [], []
     try:
         sim0 = V.build_prog("c12sim", PROGS["c12sim"])
         derived = derive_footprints(sim0, probe_cases(gen), d)
-        rich = derive_rich_footprints(sim0, rc[:6 if quick else 60], d)
+        rich = derive_rich_footprints(sim0, rc[:6 if quick else 60] + pairs[:len(pk)], d)
         nprobe = write_gen_footprints(derived, rich)
         kinds = derive_bias_kinds(sim0, d)
         write_gen_bias_kinds(kinds)
@@ -1633,8 +1636,6 @@ def check(run):
         tie_part(run, r, model, sim, tc[b0:b0 + B], d)
     rich_part(run, r, sim, rc, d)
     # every bias kind paired with a restraint whose energy varies: random schedules vs serial, and the first-vs-last differential
-    pk = sorted(PAIR_KINDS)
-    pairs = [gen_pair_case(r, k, pk[k % len(pk)]) for k in range(len(pk) if quick else 6 * len(pk))]
     for c in pairs:
         run.dist("P:pair " + c["pair_kind"])
     rich_part(run, r, sim, pairs, d)
